@@ -17,6 +17,8 @@ import (
 	metav1 "k8s.io/apimachinery/pkg/apis/meta/v1"
 	"k8s.io/apimachinery/pkg/runtime/schema"
 
+	metricstorage "github.com/flant/shell-operator/pkg/metric_storage"
+
 	"verifharness/internal/core"
 	"verifharness/internal/opsim"
 )
@@ -29,7 +31,18 @@ type Input struct {
 	Conversion string `json:"conversion"`
 	Concurrent bool   `json:"concurrent"`
 	NameLen    int    `json:"name_len"` // 0: default hook name; else length of the sanitized hook name
+	// literal content of ONE of the JSON output files (its kind above is "text"): the
+	// concatenation of Parts (documents, separators, stray bytes; delta debugging drops parts)
+	TextFile string   `json:"text_file,omitempty"` // metrics admission conversion
+	Parts    []string `json:"parts,omitempty"`
+	Mut      string   `json:"mut,omitempty"` // mutation kind that produced the text (tag only)
 }
+
+// the finding "a conversion response followed by other data is accepted" (C12_Spec.T_conv):
+// such texts are generated only on request, as long as the finding is not recorded
+var convTrailing = os.Getenv("VERIF_C12_CONV_TRAILING") != ""
+
+func (in Input) text() string { return strings.Join(in.Parts, "") }
 
 type Obs struct {
 	Started        bool   `json:"started"`
@@ -47,6 +60,16 @@ type Obs struct {
 }
 
 var kinds = []string{"empty", "valid", "truncated", "wrongtype"}
+
+func (in Input) content(file, kind string) string {
+	if kind == "text" {
+		if in.TextFile == file {
+			return in.text()
+		}
+		return ""
+	}
+	return content(file, kind)
+}
 
 func content(file, kind string) string {
 	switch file + ":" + kind {
@@ -169,10 +192,10 @@ func Run(in Input) Obs {
 	o.TmpDuring = countFiles(s.TmpDir())
 	fail0 := 0
 	files := map[string]string{
-		"METRICS_PATH":             content("metrics", in.Metrics),
-		"KUBERNETES_PATCH_PATH":    content("patch", in.Patch),
-		"ADMISSION_RESPONSE_PATH":  content("admission", in.Admission),
-		"CONVERSION_RESPONSE_PATH": content("conversion", in.Conversion),
+		"METRICS_PATH":             in.content("metrics", in.Metrics),
+		"KUBERNETES_PATCH_PATH":    in.content("patch", in.Patch),
+		"ADMISSION_RESPONSE_PATH":  in.content("admission", in.Admission),
+		"CONVERSION_RESPONSE_PATH": in.content("conversion", in.Conversion),
 	}
 	if in.Concurrent && len(calls) == 2 {
 		s.Do(opsim.Action{Kind: "Finish", Q: 2, Ok: true})
@@ -194,7 +217,23 @@ func Run(in Input) Obs {
 	return o
 }
 
-func metricPresent(s *opsim.Sim) bool { return opsim.HookMetricPresent(s, "verif_c12_metric") }
+// a metric family named exactly verif_c12_metric is in the hook metric registry
+func metricPresent(s *opsim.Sim) bool {
+	ms, ok := s.Op.HookMetricStorage.(*metricstorage.MetricStorage)
+	if !ok || ms == nil {
+		return false
+	}
+	fams, err := ms.Gatherer.Gather()
+	if err != nil {
+		return false
+	}
+	for _, f := range fams {
+		if f.GetName() == probe {
+			return true
+		}
+	}
+	return false
+}
 
 func statusOf(st opsim.StepObs, q int, failBefore int) string {
 	for _, qo := range st.Queues {
@@ -220,6 +259,16 @@ func countFiles(dir string) int {
 	return len(ents)
 }
 
+func (in Input) kindCode(file, k string) string {
+	if k == "text" {
+		if in.TextFile == file {
+			return "(FText " + core.CoqBytes(in.text()) + ")"
+		}
+		return "(FText [])"
+	}
+	return kindCode(k)
+}
+
 func kindCode(k string) string {
 	switch k {
 	case "valid":
@@ -240,17 +289,24 @@ func Render(in Input, obs *Obs, crash string) core.Case {
 	c := core.Case{}
 	st := map[string]int{"success": 0, "fail": 1, "none": 2, "": 2}[o.Status]
 	c.Coq = fmt.Sprintf("(mkIn %s %s %s %s %s %s %d, mkOb %s %s %s %s %s %s %d %d %d %s %s %s)",
-		core.CoqZ(int64(in.Exit)), kindCode(in.Metrics), kindCode(in.Patch), kindCode(in.Admission), kindCode(in.Conversion),
+		core.CoqZ(int64(in.Exit)), in.kindCode("metrics", in.Metrics), in.kindCode("patch", in.Patch), in.kindCode("admission", in.Admission), in.kindCode("conversion", in.Conversion),
 		core.CoqBool(in.Concurrent), in.NameLen,
 		core.CoqBool(o.Started), core.CoqBool(o.CwdIsHookDir), core.CoqBool(o.EnvOK), core.CoqBool(o.ContextMatches),
 		core.CoqBool(o.FilesEmpty), core.CoqBool(o.PathsDistinct), o.TmpDuring, st, max0(o.TmpAfter),
 		core.CoqBool(o.MetricApplied), core.CoqBool(o.PatchApplied), core.CoqBool(crash != "" || o.Note != ""))
 	c.JSON = map[string]any{"obs": o, "crash": crash}
 	c.Key = fmt.Sprintf("%d/%s/%s/%s/%s/%v/%d", in.Exit, in.Metrics, in.Patch, in.Admission, in.Conversion, in.Concurrent, in.NameLen)
+	if in.TextFile != "" {
+		c.JSON = map[string]any{"obs": o, "crash": crash, in.TextFile + "_text": in.text()}
+		c.Key += "/" + in.TextFile + "/" + in.text()
+	}
 	c.Nontrivial = true
 	c.Tags = []string{fmt.Sprintf("exit:%d", in.Exit), "metrics:" + in.Metrics, "patch:" + in.Patch, "admission:" + in.Admission, "conversion:" + in.Conversion, fmt.Sprintf("concurrent:%v", in.Concurrent)}
 	if in.NameLen != 0 {
 		c.Tags = append(c.Tags, "longname")
+	}
+	if in.TextFile != "" {
+		c.Tags = append(c.Tags, "text:"+in.TextFile, "mut:"+in.Mut, "mut:"+in.TextFile+":"+in.Mut)
 	}
 	return c
 }
@@ -273,8 +329,19 @@ func Gen(r *core.Rng, tier string) ([]core.In[Input], bool) {
 	for _, n := range []int{150, 188, 189, 190, 191, 192, 193, 200} {
 		add(Input{Exit: 0, Metrics: "empty", Patch: "empty", Admission: "empty", Conversion: "empty", NameLen: n}, "longname")
 	}
+	// literal texts: one per mutation kind and file
+	for _, in := range textCorpus() {
+		add(in, "text-corpus")
+	}
+	if convTrailing {
+		add(textInput("conversion", "conv-trailing", []string{`{"convertedObjects":[]}`, " garbage"}), "text-corpus")
+		add(textInput("conversion", "conv-trailing", []string{`{"failedMessage":"no"}`, "}"}), "text-corpus")
+	}
 	exits := []int{0, 1, 2, 137}
 	if tier == "quick" {
+		genTexts(r.Fork(), "metrics", 126, add)
+		genTexts(r.Fork(), "admission", 30, add)
+		genTexts(r.Fork(), "conversion", 24, add)
 		// every exit code x each single file in every state (others empty), plus seeded random combinations
 		for _, e := range exits {
 			for f := 0; f < 4; f++ {
@@ -299,6 +366,15 @@ func Gen(r *core.Rng, tier string) ([]core.In[Input], bool) {
 		}
 		return ins, false
 	}
+	if tier == "thorough" {
+		genTexts(r.Fork(), "metrics", 4200, add)
+		genTexts(r.Fork(), "admission", 840, add)
+		genTexts(r.Fork(), "conversion", 630, add)
+	} else { // search
+		genTexts(r.Fork(), "metrics", 1260, add)
+		genTexts(r.Fork(), "admission", 210, add)
+		genTexts(r.Fork(), "conversion", 210, add)
+	}
 	// thorough / search: the full product exit x 4^4 file states (x concurrent for exit 0 and 1)
 	for _, e := range exits {
 		for _, m := range kinds {
@@ -314,13 +390,13 @@ func Gen(r *core.Rng, tier string) ([]core.In[Input], bool) {
 			}
 		}
 	}
-	return ins, true
+	return ins, false
 }
 
 var _ = sort.Ints
 
 var Driver = core.Driver[Input, Obs]{
-	Spec: core.Spec{Property: "C12", Imports: []string{"C12_Model", "C12_Spec", "C12_Corr"}, Corr: "C12_Corr",
-		Rule: "one hook with two schedule bindings in two queues run by the real operator; the scripted hook reports cwd, environment, context file, initial content of the output files and the temp-dir listing, then ends with exit code in {0,1,2,137} and each of the four output files in {empty, valid, truncated, wrong type}; observed: task status, temp dir afterwards, whether the metric / the patch took effect, path uniqueness across two concurrent executions; quick = every exit code x every single-file state + 60 random combinations + corpus; thorough = the full product (exhaustive); the longname stream uses hook names whose temp-file names straddle the 255-byte file-name limit; every case is non-trivial and distinct by its parameters"},
-	Gen: Gen, Run: Run, Render: Render, PerShard: 400, Workers: 8, CaseTimout: 40 * time.Second,
+	Spec: core.Spec{Property: "C12", Imports: []string{"C12_Model", "C12_Spec", "C12_Corr"}, Corr: "C12_Corr", Triggers: []string{"C12conv"}, ShrinkKey: "parts",
+		Rule: "one hook with two schedule bindings in two queues run by the real operator; the scripted hook reports cwd, environment, context file, initial content of the output files and the temp-dir listing, then ends with exit code in {0,1,2,137} and each of the four output files in {empty, valid, truncated, wrong type}; observed: task status, temp dir afterwards, whether the metric / the patch took effect, path uniqueness across two concurrent executions; quick = every exit code x every single-file state + 60 random combinations + corpus; thorough = the full product (exhaustive); the longname stream uses hook names whose temp-file names straddle the 255-byte file-name limit; every case is non-trivial and distinct by its parameters; TEXT cases: one of the metrics / admission-response / conversion-response files holds a literal text (the model reads it byte by byte): valid texts (1-4 metric operations in the documented forms, one response object; varied whitespace, key order, escapes, UTF-8, number forms) and texts broken by a mutation grammar (tags mut:<kind>): trunc, del/ins/dup of one structural byte, stray closer/opener/separator at a value boundary, value of another JSON type, garbage after valid, whitespace only, only a closer, control byte in a string, bad escape, bad number, case-changed keys, unknown keys, null values, duplicate keys, violated metric rules, non-object documents; a fixed corpus holds texts of every kind; quick = corpus + 180 generated texts, thorough = corpus + 5670, search = corpus + 1680; distinct = distinct by parameters and text"},
+	Gen: Gen, Run: Run, Render: Render, PerShard: 60, Workers: 14, CaseTimout: 40 * time.Second,
 }
